@@ -640,6 +640,7 @@ func (s *Sim) Run(done func() bool) Verdict {
 	raceDisable()
 	defer raceEnable()
 	idle := 0
+	lockSpin := 0
 	lastProg := s.progress.Load()
 	roundsNoProg := 0
 	roundMark := 0
@@ -676,6 +677,33 @@ func (s *Sim) Run(done func() bool) Verdict {
 			continue
 		}
 		idle = 0
+		// Everybody who can run is spinning on a lock (sites ending in
+		// ":blocked") and everybody else is durably blocked: nobody can release
+		// those locks unless a timer fires. Let hours of simulated time pass a
+		// few times; if the picture does not change it is a deadlock, under any
+		// policy (the step budget would otherwise be burnt by the spinning).
+		allSpin := true
+		for _, p := range ps {
+			if !bytes.HasSuffix([]byte(p.site), []byte(":blocked")) {
+				allSpin = false
+				break
+			}
+		}
+		if allSpin {
+			lockSpin++
+			if lockSpin%256 == 0 {
+				s.mu.Unlock()
+				if lockSpin/256 > 4 {
+					return Deadlock
+				}
+				s.TimeAdv++
+				s.fold("adv-lockspin")
+				time.Sleep(time.Duration(lockSpin/256) * time.Hour)
+				continue
+			}
+		} else {
+			lockSpin = 0
+		}
 		g := s.choose(ps)
 		g.parked = false
 		g.lastRun = s.Steps + 1
